@@ -74,6 +74,22 @@ def helpers(ctx, pid):
         ((("==", ("sub", pair, C(0)), ("sub", pair, C(1))),), ("call", "ext:min", (("len", l), ("len", r)), ())),
     }
     c = "first-mismatch:get_common_prefix_length"
+    if _symc(rets) != _symc(want):
+        # second spelling: a counter that starts at 0 and goes up by one per equal pair of zip(left, right), left by
+        # `break` at the first difference; running off the shorter key gives min(len, len).  Two rounds are looked at.
+        zt = ("call", "ext:zip", (l, r), ())
+        rets2 = set()
+        for p, st in pq.states(ctx, g, unroll=2):
+            if p.exit[0] == "return":
+                rets2.add((tuple(rel_norm(t, pol) for t, pol, _ in st.log), st.ret))
+        mn = ("call", "ext:min", (("len", l), ("len", r)), ())
+
+        def pr(k, op):
+            e = ("iter", zt, k)
+            return (op, ("sub", e, C(0)), ("sub", e, C(1)))
+        want2 = {((), mn), ((pr(0, "!="),), C(0)), ((pr(0, "=="),), mn), ((pr(0, "=="), pr(1, "!=")), C(1)), ((pr(0, "=="), pr(1, "==")), mn)}
+        if _symc(rets2) == _symc(want2):
+            rets = want
     if _symc(rets) == _symc(want):
         ctx.ok(c, g.loc(), "index of the first differing position of zip(left, right), else min(len(left), len(right))")
     else:
